@@ -141,6 +141,16 @@ def run(ctx):
             jobs.append((members, f2, pw, ops, (pre_members, pre_ops)))
             jobs.append((members, f2, pw, ops, (pre_members, pre_ops)))
             meta.append(((lab + "+AES" if f2 is not None else "default") + "/append-after-%s" % ("+".join(pre_ops) or "plain-header"), pw, ops, pre_members + members))
+    # every way of asking for header encryption in an APPEND session x every kind of header the base had
+    for gi, (pre_ops, ops) in enumerate([(a, b) for a in ([], ["ctor"], ["encoded-"]) for b in (["ctor"], ["enc+"], [], ["ctor", "enc-"])]):
+        lab, f = chains[gi % len(chains)]
+        filters = arclib.with_aes(f) if gi % 3 else None
+        pw = passwords[gi % len(passwords)]
+        pre_members = [("confidential-pre/%s.secret-name" % "".join(chr(rng.randrange(0x61, 0x7B)) for _ in range(8)), rng.choice(PLAIN) + b"#pre")]
+        members = [("confidential-app/%s.secret-name" % "".join(chr(rng.randrange(0x61, 0x7B)) for _ in range(8)), rng.choice(PLAIN) + b"#app")]
+        jobs.append((members, filters, pw, ops, (pre_members, pre_ops)))
+        jobs.append((members, filters, pw, ops, (pre_members, pre_ops)))
+        meta.append(((lab + "+AES" if filters is not None else "default") + "/append-after-%s" % ("+".join(pre_ops) or "plain-header"), pw, ops, pre_members + members))
     # default filters (filters=None): the library picks the encrypted default chain whenever a password is given
     for pw in ("", "x", "pässwörd"):
         names = ["confidential-d/%s.secret-name" % pw.encode().hex()]
@@ -162,7 +172,13 @@ def run(ctx):
         ctor = bool(ops) and ops[0] == "ctor"
         want_mode = model_mode(ctor, ops[1:] if ctor else ops)
         if tuple(final) != want_mode:
-            ctx.fail("C11:header_mode", "header mode after %s is %s, the mode machine says %s" % (ops, final, want_mode), conf)
+            if want_mode[1] and not final[1]:
+                # header encryption was asked for and is not in force: the names will be stored readable
+                ctx.fail("C11:header_mode", "header mode after %s is %s, the mode machine says %s" % (ops, final, want_mode), conf)
+            else:
+                # the session's mode differs from the model without weakening what was asked for: a broken correspondence
+                ctx.broken.append({"kind": "correspondence", "name": "header-mode-machine",
+                                   "detail": {"ops": ops, "impl": list(final), "model": list(want_mode), "chain": lab}})
         encrypted_header = want_mode[1]
         ctx.count("header", "encrypted" if encrypted_header else ("encoded" if want_mode[0] else "raw"))
         # ---- leak search
